@@ -22,9 +22,21 @@ start line, header block, length or number is ever chosen by the checker; branch
 * `_Sym` (shared): 1 (resolved callees, constructor classes), 3 (reaching definitions -> terms, tuple unpacking, loop body
   once with symbolic element), 6 (constant folding, e.g. `_EOL * 2`).  Lemmas: `dict(pairs) == {p[0]: p[1] for p in pairs}`
   (definition of dict() over an iterable of pairs); `d = {}; for x in it: d[k(x)] = v(x)` equals `{k(x): v(x) for x in it}`
-  when the store is the only write to `d` and is unconditional in a for-loop without break/continue that dominates the
-  use (checked on the CFG, 2); `bytes(b)` of a bytes value is an equal value; `list/tuple/iter(g)` preserve the elements
-  and order of `g`; `len(<constant>)` is folded (6).
+  when the store is the only write to `d` in a non-nested for-loop without break/return; `bytes(b)` of a bytes value is
+  an equal value; `list/tuple/iter(g)` preserve the elements and order of `g`; `len(<constant>)` is folded (6).
+  *Filtered iteration* (2, 3): the term ("filter", it, c) is "the elements of `it` for which c holds" (c a term over the
+  element marker, or an element-independent guard).  It is produced by comprehension `if` clauses, by `filter(None, it)`
+  (keeps the true elements - definition), and by a dict-filling loop whose store is conditional: `_store_conditions`
+  finds, on the CFG, the `if` statements reachable from the initialisation of which exactly one edge can still reach the
+  store (inside the loop: within the same iteration); each must dominate the store through that edge; since the region
+  has no other branching statement, the store runs for an element exactly when all those tests have that outcome.
+  `if c: continue`, `if c: <store>`, nestings of both and an `if` around the whole loop are instances; anything else is
+  `opaque`.  Lemma (empty iteration): a map built over no element is `{}` and iterating `[]` yields nothing, hence
+  `M if c else {}` (or the two-branch statement form) is M over its elements filtered by c and `it if c else []` is
+  `it` filtered by c.  Where a filter condition states that a constant separator occurs in x, the element expressions
+  are read with the find/partition lemma below (`x.split(s, 1)[1]` is `partition[2]` there).
+  *urlparse re-join* (3): `P.path + ";" + P.params if P.params else P.path` (also `";".join((..))`, `!= b""`, statement
+  form) for P = urlparse(..) is the one term ("attr", "path;params", P).
   *Gated merge* (2, 3): when exactly two definitions of a local reach a use and one `if` statement I dominates the use such
   that, on every path from I to the use that does not return to I, the last definition is the first one after the true
   edge and the second one after the false edge (dominance and path queries on the CFG, `_gate_of`), the value is
@@ -54,7 +66,10 @@ start line, header block, length or number is ever chosen by the checker; branch
   one piece (only the whitespace split can be empty); the test of a conditional expression holds in its first arm and
   fails in its second.
 * R3 (start-line fields, params, headers binding): 3 - structural comparison of field terms ("item i of one and the same
-  token-sequence term", "`.path` / `.query` of one and the same `urlparse` term", "map over `parse_qsl` pairs"); 1.
+  token-sequence term", "path component / query component of one and the same request target", "map over `parse_qsl`
+  pairs"); 1.  The components are recognised as `.path` / `.query` (or the equivalent tuple elements 2 and 4 resp. 3) of
+  `urlparse(..)` / `urlsplit(..)` (both result types have these attributes), urlparse's path re-joined with its params,
+  or the two outer components of the target's partition at the first `?`.
   `.encode/.decode/str(x, enc)/bytes(x, enc)` steps are peeled structurally ("re-coded only"), never executed.
 * R4 (selection of the message kind, exits): 2 (dominating conditions with polarity, enclosing conditional expressions;
   return statements / fall-off-end from the CFG), 3 (terms of the conditions), 6 (folding of the *reference* constant
@@ -63,8 +78,26 @@ start line, header block, length or number is ever chosen by the checker; branch
   "l starts with K ignoring ASCII case" (bytes case mapping is per byte and length preserving); the `!=` spelling of the
   two slice forms (and `not in` a one-element display, which is `!=` its element) states the negation, so it counts as
   the same test with the polarity of the branch edge inverted.
-* R5 (header map): 3 - structural equality of the map term's iterable / key / value with
-  `rest.split(CRLF)`, `$.partition(b": ")[0]`, `$.partition(b": ")[2]`; initial mapping must be the empty display.
+* R5 (header map; also the `headers=` part of R3): 3 - structural equality of the map term's iterable / key / value with
+  `rest.split(CRLF)`, `$.partition(b": ")[0]`, `$.partition(b": ")[2]`; initial mapping must be the empty display.  The
+  iterable may be filtered: every filter condition must be implied by "the line (resp. the block it is a piece of)
+  contains a `key: value` line", decided by the lemmas of `_keeps_header_lines` (4: such an x is non-empty, has
+  length >= 2, contains every piece of b": ", is not whitespace-only, differs from every constant without b": "); a
+  filter condition outside these lemmas -> undecided.
+* R9 (empty header block, ABS): 4 + 5 - case analysis over emptiness: in the case "the rest of the head after the start line
+  is empty (and the message, its head and its start line are not)" the sequence the header map is built over is
+  evaluated in the emptiness/length domain of `_abs` / `_truth` (values: empty, non-empty, sequence of known length,
+  small constants, unknown).  Lemmas: `b"".split(sep) == [b""]` for an explicit non-empty separator (one empty piece,
+  never an empty list); `b"".split() == []`, `b"".splitlines() == []`; every partition component / slice / strip / case
+  mapping / re-coding of an empty value is empty; a non-empty value does not occur in (is no prefix/suffix of) an empty
+  one, `find` gives -1, `count` 0, the `is...()` predicates are false; `len` of an empty value is 0; a bytes value is not
+  None; `filter(None, ..)` / a filter keeps the elements whose condition is true.  No element left -> discharged; an
+  element reaches the store (or the map is pre-filled) -> violated; length or a condition unknown -> undecided.
+* R10 (complete request path, API): 1 (import-resolved library callee), 3 (shape of the path term).  Lemmas (documented
+  urllib behaviour): `urlparse` splits `;parameters` off the last path segment into `.params`, `urlsplit` does not; the
+  path component of a request target ends at its first `?`.  `.path` of urlsplit, urlparse's path re-joined with
+  `.params`, or the target cut at the first `?` -> discharged; `.path` of urlparse alone (on any path) -> violated; a
+  path obtained in another way -> undecided.
 * R6 (escape set): the engine's `effects.check_escape` - may-raise set over the call graph (1) with handlers / guards on
   the CFG (2), the engine's non-raising side conditions (4) and the exception class hierarchy (6: table).
 * R7 (percent-decoding API use): 1 (import-resolved library callee names), 3 (term of the `encoding=` argument and of the
@@ -102,6 +135,8 @@ def _c(node):
 # ("call", name, args, kwargs) ("ctor", class, n) ("attr", name, base) ("gen", iter, elt) ("map", iter, key, val, init)
 # ("dict", items) ("elem",) ("iterelem", iter) ("phi", alts) ("cmp", op, l, r) ("not", t) ("and"|"or", ts)
 # ("binop", op, l, r) ("opaque", why) ("occ", "find"|"rfind", x, sep): index of the first/last occurrence of sep in x, len(x) if none
+# ("filter", it, cond): the elements of `it` for which `cond` (over the element marker) holds
+# ("attr", "path;params", P): urlparse result P's path with its `;params` put back
 def _opaque(why):
     return ("opaque", why)
 
@@ -271,6 +306,20 @@ def _occurrence_test(cond):
     return x, sep, present == pol
 
 
+def _under_presence(x, sep, t):
+    """The term `t` as it reads where the non-empty constant `sep` is known to occur in `x`: there `x.find(sep)` /
+    `x.index(sep)` are the first and `x.rfind(sep)` / `x.rindex(sep)` the last occurrence (the value of the ("occ", ..)
+    term), and the second piece of `x.split(sep, 1)` is what follows the first occurrence."""
+    def occ(n):
+        if n[0] == "meth" and n[1] in ("find", "index", "rfind", "rindex") and n[2] == x and n[3] == (sep,) and not n[4]:
+            return ("occ", "rfind" if n[1].startswith("r") else "find", x, sep)
+        if n[0] == "item" and n[2] in (1, -1) and _split_once(n[1]) == (x, sep):
+            return ("part", "partition", x, sep, 2)   # the second of the two pieces is what follows the first occurrence
+        return n
+
+    return _rewrite(t, occ)
+
+
 def _occ_merge(x, sep, p, a):
     """The value that is `p` when `sep` occurs in `x` and `a` when it does not, as ONE term - or None if the pair is not
     one of the forms below.  In the branch where the separator occurs `x.find(sep)` / `x.index(sep)` are the first and
@@ -280,14 +329,7 @@ def _occ_merge(x, sep, p, a):
         parts = [_occ_merge(x, sep, pi, ai) for pi, ai in zip(p[1:], a[1:])]
         return None if any(q is None for q in parts) else ("tuple",) + tuple(parts)
 
-    def occ(n):
-        if n[0] == "meth" and n[1] in ("find", "index", "rfind", "rindex") and n[2] == x and n[3] == (sep,) and not n[4]:
-            return ("occ", "rfind" if n[1].startswith("r") else "find", x, sep)
-        if n[0] == "item" and n[2] in (1, -1) and _split_once(n[1]) == (x, sep):
-            return ("part", "partition", x, sep, 2)   # the second of the two pieces is what follows the first occurrence
-        return n
-
-    P = _rewrite(p, occ)
+    P = _under_presence(x, sep, p)
     if P == a:
         return P
     if P[0] == "occ" and P[2] == x and P[3] == sep and a == ("call", "len", (x,), ()):
@@ -298,15 +340,61 @@ def _occ_merge(x, sep, p, a):
     return None
 
 
+def _neg(c):
+    return c[1] if c[0] == "not" else ("not", c)
+
+
+def _mk_filter(it, cond):
+    """The elements of `it` for which `cond` (a term over the element marker `$`; it may also be independent of the
+    element: a guard around the whole iteration) holds, in order.  `filter(g(x) for x in it)` is normalised to a generator
+    over the filtered base so that the map/gen substitution rules keep working."""
+    if it[0] == "gen":
+        return ("gen", _mk_filter(it[1], _subst(cond, it[2])), it[2])
+    return ("filter", it, cond)
+
+
+def _params_rejoin(cond, t, e):
+    """`P.path + ";" + P.params if P.params else P.path` for P = urlparse(..): the path with the `;parameters` that
+    urlparse cut off its last segment put back -> ("attr", "path;params", P); None for anything else."""
+    pol = True
+    while cond[0] == "not":
+        cond, pol = cond[1], not pol
+    if cond[0] == "cmp" and cond[1] in ("!=", "==") and any(x[0] == "const" and x[1] in (b"", "") for x in cond[2:4]):
+        pol = pol == (cond[1] == "!=")
+        cond = cond[3] if cond[2][0] == "const" else cond[2]
+    elif cond[0] == "cmp" and cond[1] in (">", "!=") and cond[3] == ("const", 0) and cond[2][0] == "call" and cond[2][1] == "len" and len(cond[2][2]) == 1:
+        cond = cond[2][2][0]
+    if not pol:
+        t, e = e, t
+    if not (cond[0] == "attr" and cond[1] == "params" and cond[2][0] == "call" and cond[2][1] == "urlparse"):
+        return None
+    P = cond[2]
+    path, semi = ("attr", "path", P), (("const", b";"), ("const", ";"))
+    joined = [("binop", "Add", ("binop", "Add", path, c), cond) for c in semi] + [("binop", "Add", path, ("binop", "Add", c, cond)) for c in semi]
+    joined += [("meth", "join", c, (("tuple", path, cond),), ()) for c in semi]
+    return ("attr", "path;params", P) if e == path and t in joined else None
+
+
 def _mk_gated(cond, t, e):
     """`t if cond else e` (conditional expression, or two definitions selected by one dominating `if`): one exact term when
-    the condition is an occurrence test and the pair matches the find/partition lemma, else the plain merge of both."""
+    the condition is an occurrence test and the pair matches the find/partition lemma, when one side is the empty
+    sequence / mapping (lemma: iterating nothing stores nothing, so `M if c else {}` is M built over the elements
+    filtered by c, and `it if c else []` is `it` filtered by c), or when it is the urlparse re-join; else the plain merge
+    of both."""
     g = _occurrence_test(cond)
     if g is not None:
         x, sep, present = g
         m = _occ_merge(x, sep, t, e) if present else _occ_merge(x, sep, e, t)
         if m is not None:
             return m
+    for c, full, empty in ((cond, t, e), (_neg(cond), e, t)):
+        if empty == ("dict", ()) and full[0] == "map" and not full[4]:
+            return ("map", _mk_filter(full[1], c)) + full[2:]
+        if empty == ("tuple",) and (full[0] in ("gen", "filter") or _is_split(full) or (full[0] == "meth" and full[1] == "splitlines")):
+            return _mk_filter(full, c)
+    m = _params_rejoin(cond, t, e)
+    if m is not None:
+        return m
     return _mk_phi([t, e])
 
 
@@ -322,10 +410,24 @@ def _subst(t, repl):
         return _mk_slice(_subst(t[1], repl), *t[2:])
     if t and t[0] == "slice" and len(t) == 5 and all(isinstance(x, tuple) for x in t[2:]):
         return _mk_slice_terms(*[_subst(x, repl) for x in t[1:]])
-    if t and t[0] in ("gen", "map"):
+    if t and t[0] in ("gen", "map", "filter"):
         # the element marker inside the element expressions belongs to that inner comprehension
         return (t[0], _subst(t[1], repl)) + t[2:]
     return tuple(_subst(x, repl) for x in t)
+
+
+def _filtered(it, conds, outs):
+    """(`it` filtered by the conjunction of `conds`, `outs` as they read under those conditions): where a condition
+    states that a constant separator occurs in x, `x.find(sep)` / the second piece of `x.split(sep, 1)` in the element
+    expressions are the first-occurrence terms (find/partition lemma)."""
+    if not conds:
+        return it, outs
+    cond = conds[0] if len(conds) == 1 else ("and", tuple(conds))
+    for atom, pol in _atoms(cond, True):
+        g = _occurrence_test(atom if pol else ("not", atom))
+        if g is not None and g[2]:
+            outs = [_under_presence(g[0], g[1], o) for o in outs]
+    return _mk_filter(it, cond), outs
 
 
 def _mk_gen(it, elt):
@@ -393,6 +495,8 @@ def _show(t, depth=0):
         return f"({s(t[2])} for $ in {s(t[1])})"
     if h == "map":
         return f"{{{s(t[2])}: {s(t[3])} for $ in {s(t[1])}}}" + (f" over initial {dict(t[4])!r}" if t[4] else "")
+    if h == "filter":
+        return f"<$ in {s(t[1])} if {s(t[2])}>"
     if h == "dict":
         return "{" + ", ".join(f"{s(k)}: {s(v)}" for k, v in t[1]) + "}"
     if h == "elem":
@@ -503,8 +607,8 @@ class _Sym:
         return True  # attribute / subscript targets bind no local
 
     def _comp(self, e, at, env, depth):
-        if len(e.generators) != 1 or e.generators[0].ifs or e.generators[0].is_async:
-            return _opaque("comprehension with several generators or a filter")
+        if len(e.generators) != 1 or e.generators[0].is_async:
+            return _opaque("comprehension with several generators")
         if any(_contains(v, ELEM) for v in env.values()) or self._elem_loops:
             return _opaque("nested comprehension")
         g = e.generators[0]
@@ -512,9 +616,13 @@ class _Sym:
         env2 = dict(env)
         if not self._bind_target(g.target, ELEM, env2):
             return _opaque("starred comprehension target")
+        outs = [self.ev(x, at, env2, depth) for x in ((e.key, e.value) if isinstance(e, ast.DictComp) else (e.elt,))]
+        if g.ifs:
+            # `.. for x in it if c1 if c2`: the elements of `it` filtered by the conjunction
+            it, outs = _filtered(it, [self.ev(c, at, env2, depth) for c in g.ifs], outs)
         if isinstance(e, ast.DictComp):
-            return _mk_map(it, self.ev(e.key, at, env2, depth), self.ev(e.value, at, env2, depth))
-        return _mk_gen(it, self.ev(e.elt, at, env2, depth))
+            return _mk_map(it, outs[0], outs[1])
+        return _mk_gen(it, outs[0])
 
     def _call(self, e, at, env, depth):
         if any(isinstance(a, ast.Starred) for a in e.args) or any(k.arg is None for k in e.keywords):
@@ -553,8 +661,11 @@ class _Sym:
             return ("const", len(args[0][1]))   # constant folding
         if name == "bytes" and len(args) == 1 and not kwargs and args[0][0] == "part":
             return args[0]   # bytes(<bytes>) is a copy of the same value
-        if name in ("list", "tuple", "iter") and len(args) == 1 and not kwargs and args[0][0] in ("gen", "tuple"):
+        if name in ("list", "tuple", "iter") and len(args) == 1 and not kwargs and args[0][0] in ("gen", "tuple", "filter"):
             return args[0]
+        if name == "filter" and len(args) == 2 and not kwargs:
+            # filter(None, it) keeps the elements that are true; any other predicate is not modelled
+            return _mk_filter(args[1], ELEM) if args[0] == ("const", None) else _opaque("filter() with a predicate function")
         return ("call", name, args, kwargs)
 
     # -------------------------------------------------------------------------------------------------------- names
@@ -680,17 +791,47 @@ class _Sym:
         lp = self.fv.enclosing(s, (ast.For, ast.AsyncFor, ast.While))
         if not isinstance(lp, ast.For) or lp.orelse or self.fv.enclosing(lp, (ast.For, ast.AsyncFor, ast.While)) is not None:
             return _opaque("item assignment outside a simple for-loop")
-        if not any(b is s for b in lp.body) or any(isinstance(x, (ast.Break, ast.Continue, ast.Return)) for b in lp.body for x in ast.walk(b)):
-            return _opaque("conditional item assignment or loop with break/continue")
-        if not (cfg.dominates(cfg.node(dst), cfg.node(lp)) and cfg.dominates(cfg.node(lp), cfg.node(use))):
-            return _opaque("filling loop not on every path between the initial mapping and its use")
+        inner = [x for b in lp.body for x in ast.walk(b)]
+        if any(isinstance(x, (ast.Break, ast.Return, ast.For, ast.AsyncFor, ast.While, ast.Try, ast.With, ast.AsyncWith, ast.Match)) for x in inner):
+            return _opaque("filling loop with break/return or nested blocks other than `if`")
+        if any(x is lp for x in self.fv.ancestors(use)) or not cfg.dominates(cfg.node(dst), cfg.node(s)):
+            return _opaque("mapping used inside its filling loop, or filled without passing its initialisation")
+        conds = self._store_conditions(dst, lp, s, inner)
+        if conds is None:
+            return _opaque("item assignment not selected by a conjunction of branch conditions")
         self._elem_loops.add(id(lp))
         try:
-            key = self.ev(n.slice, s, {}, depth)
-            val = self.ev(s.value, s, {}, depth)
+            outs = [self.ev(n.slice, s, {}, depth), self.ev(s.value, s, {}, depth)]
+            cts = [t if pol else _neg(t) for t, pol in ((self.ev(I.test, I, {}, depth), pol) for I, pol in conds)]
         finally:
             self._elem_loops.discard(id(lp))
-        return _mk_map(self.ev(lp.iter, lp, {}, depth), key, val, init[1])
+        it, outs = _filtered(self.ev(lp.iter, lp, {}, depth), cts, outs)
+        return _mk_map(it, outs[0], outs[1], init[1])
+
+    def _store_conditions(self, dst, lp, s, inner):
+        """[(if statement, polarity)] such that, once the initialisation `dst` has run, the store `s` in loop `lp` is
+        executed for an element exactly when all these tests have the given outcome - or None if the store is not
+        selected by such a conjunction.  CFG reasoning only: an `if` reachable from `dst` is *selecting* when exactly one
+        of its edges can still reach the store (within the same iteration, if it is inside the loop); every selecting
+        `if` must dominate the store through that edge.  Then (the region is acyclic apart from the loop itself and has
+        no other branching statement) following the reaching edge of every selecting `if` always arrives at the store,
+        and taking the other edge of any of them never does.  `if c: continue`, `if c: <store>`, nested and
+        early-`continue` forms, and an `if` around the whole loop are all instances."""
+        cfg = self.cfg
+        hdr, sn, dn = cfg.node(lp), cfg.node(s), cfg.node(dst)
+        out = []
+        for I in statements(self.fn):
+            if not isinstance(I, ast.If) or not cfg.has(I) or not cfg.reaches(dn, cfg.node(I)):
+                continue
+            avoid = [hdr] if any(x is I for x in inner) else []
+            te, fe = cfg.edge_node(I, "true"), cfg.edge_node(I, "false")
+            rt, rf = cfg.reaches(te, sn, avoiding=avoid), cfg.reaches(fe, sn, avoiding=avoid)
+            if rt == rf:
+                continue
+            if not cfg.dominates(te if rt else fe, sn):
+                return None
+            out.append((I, rt))
+        return sorted(out, key=lambda c: (c[0].lineno, c[0].col_offset))
 
 
 # ------------------------------------------------------------------------------------------------------ judgement
@@ -827,6 +968,209 @@ def _field(ctx, call, kind, name):
     return None
 
 
+_HSEP = b": "
+
+
+def _unfilter(it):
+    """(base iterable, [(atom, polarity) of every filter condition around it])."""
+    facts = []
+    while it[0] == "filter":
+        facts.extend(_atoms(it[2], True))
+        it = it[1]
+    return it, facts
+
+
+def _keeps_header_lines(atom, pol, subjects):
+    """True if the condition `atom` (holding with polarity `pol`) is implied by "the subject contains a line of the form
+    key + b': ' + value", so that a filter made of it drops no header line.  `subjects` are the terms this is known for:
+    the line itself (`$`) and the header block it is a piece of.  Lemmas, for x containing b': ': x is not empty and
+    len(x) >= 2; every non-empty piece of b': ' occurs in x (find() >= 0, `in`, a true separator component of partition);
+    x is not whitespace only (it contains b':'), so x.strip() is not empty and x.isspace() is false; x differs from every
+    constant that does not contain b': '."""
+    if atom[0] in ("or", "and") and pol == (atom[0] == "or"):
+        # a disjunction holds as soon as one disjunct does
+        return any(all(_keeps_header_lines(a, p, subjects) for a, p in _atoms(d, pol)) for d in atom[1])
+    g = _occurrence_test(atom if pol else ("not", atom))
+    if g is not None:
+        return g[2] and g[0] in subjects and isinstance(g[1][1], bytes) and g[1][1] in _HSEP
+    t = atom
+    while t[0] == "meth" and t[1] in ("strip", "lstrip", "rstrip") and not t[3] and not t[4]:
+        t = t[2]
+    if t in subjects:
+        return pol
+    if atom[0] == "meth" and atom[1] == "isspace" and atom[2] in subjects and not atom[3]:
+        return not pol
+    if atom[0] == "part" and atom[2] in subjects and atom[4] == 1 and atom[3][0] == "const" and isinstance(atom[3][1], bytes) and atom[3][1] and atom[3][1] in _HSEP:
+        return pol
+    if atom[0] == "cmp" and atom[1] in _MIRROR:
+        op, l, r = atom[1:4]
+        if l[0] == "const" and r[0] != "const":
+            op, l, r = _MIRROR[op], r, l
+        if not pol:
+            op = {"==": "!=", "!=": "==", "<": ">=", "<=": ">", ">": "<=", ">=": "<"}[op]
+        if l in subjects and r[0] == "const" and isinstance(r[1], bytes):
+            return op == "!=" and _HSEP not in r[1]
+        if l[0] == "call" and l[1] == "len" and len(l[2]) == 1 and l[2][0] in subjects and r[0] == "const" and type(r[1]) is int:
+            # holds for every length >= 2
+            return (op == ">" and r[1] <= 1) or (op == ">=" and r[1] <= 2) or (op == "!=" and r[1] < 2)
+    return False
+
+
+# ---- the case "the header block is empty", in an emptiness / length domain.  Values: "E" an empty bytes/str value, "N" a
+# non-empty one, ("seq", (v, ..)) a sequence whose length is known (elements abstract, possibly None), ("val", c) an
+# int/bool/None, None = unknown.  No data is chosen: the only input of the evaluation is the fact "this term is empty".
+_SAME_EMPTY = {"strip", "lstrip", "rstrip", "lower", "upper", "decode", "encode", "title", "capitalize", "swapcase", "casefold", "expandtabs", "replace", "translate"}
+_FALSE_ON_EMPTY = {"isspace", "isalpha", "isdigit", "isalnum", "isupper", "islower", "istitle"}
+
+
+def _abs(t, env, elem=None):
+    if t in env:
+        return env[t]
+    h = t[0]
+    if h == "elem":
+        return elem
+    if h == "const":
+        return ("E" if not t[1] else "N") if isinstance(t[1], (bytes, str)) else ("val", t[1])
+    if h == "phi":
+        vs = [_abs(a, env, elem) for a in t[1]]
+        return vs[0] if all(v == vs[0] for v in vs) else None
+    if h == "part":
+        return "E" if _abs(t[2], env, elem) == "E" else None     # every component of a partition of nothing is empty
+    if h in ("partition", "rpartition"):
+        return ("seq", ("E", "E", "E")) if _abs(t[1], env, elem) == "E" else None
+    if h == "tuple":
+        return ("seq", tuple(_abs(x, env, elem) for x in t[1:]))
+    if h == "item":
+        b = _abs(t[1], env, elem)
+        if b and b[0] == "seq" and type(t[2]) is int and -len(b[1]) <= t[2] < len(b[1]):
+            return b[1][t[2]]
+        return None
+    if h == "slice":
+        b = _abs(t[1], env, elem)
+        if b == "E":
+            return "E"      # a slice of an empty value is empty
+        bounds = [x[1] if isinstance(x, tuple) and x[0] == "const" else x for x in t[2:5]]
+        if b and b[0] == "seq" and all(x is None or type(x) is int for x in bounds) and bounds[2] != 0:
+            return ("seq", b[1][bounds[0]:bounds[1]:bounds[2]])
+        return None
+    if h == "meth":
+        name, recv, args, kw = t[1], _abs(t[2], env, elem), t[3], dict(t[4])
+        if name in ("split", "rsplit"):
+            sep = args[0] if args else kw.get("sep", ("const", None))
+            if recv != "E":
+                return None
+            if sep == ("const", None):
+                return ("seq", ())          # lemma: whitespace split of an empty value has no piece
+            if sep[0] == "const" and isinstance(sep[1], (bytes, str)) and sep[1]:
+                return ("seq", ("E",))      # lemma: b"".split(sep) == [b""] - one empty piece, never an empty list
+            return None
+        if name == "splitlines":
+            return ("seq", ()) if recv == "E" else None      # lemma: b"".splitlines() == []
+        if name in _SAME_EMPTY:
+            return "E" if recv == "E" else "N" if recv == "N" and name in ("lower", "upper", "swapcase") else None
+        if name in ("startswith", "endswith") and recv == "E" and len(args) == 1:
+            a = _abs(args[0], env, elem)
+            return ("val", False) if a == "N" else ("val", True) if a == "E" else None
+        if name in ("find", "rfind") and recv == "E" and len(args) == 1 and _abs(args[0], env, elem) == "N":
+            return ("val", -1)
+        if name == "count" and recv == "E" and len(args) == 1 and _abs(args[0], env, elem) == "N":
+            return ("val", 0)
+        if name in _FALSE_ON_EMPTY and recv == "E":
+            return ("val", False)
+        return None
+    if h == "call":
+        name, args = t[1], t[2]
+        a = _abs(args[0], env, elem) if len(args) == 1 and not t[3] else None
+        if name == "len" and a is not None:
+            return ("val", 0) if a == "E" else ("val", len(a[1])) if a[0] == "seq" else None
+        if name in ("list", "tuple", "iter", "sorted", "reversed") and a is not None and a[0] == "seq" and (len(a[1]) <= 1 or name in ("list", "tuple", "iter")):
+            return a
+        if name == "bool":
+            v = _truth(args[0], env, elem) if len(args) == 1 else None
+            return None if v is None else ("val", v)
+        return None
+    if h == "filter":
+        b = _abs(t[1], env, elem)
+        if not (b and b[0] == "seq"):
+            # a guard that does not depend on the element and fails leaves nothing to iterate over
+            return ("seq", ()) if not _contains(t[2], ELEM) and _truth(t[2], env, elem) is False else None
+        keep = [(_truth(t[2], env, v), v) for v in b[1]]
+        return None if any(k is None for k, _v in keep) else ("seq", tuple(v for k, v in keep if k))
+    if h == "gen":
+        b = _abs(t[1], env, elem)
+        return ("seq", tuple(_abs(t[2], env, v) for v in b[1])) if b and b[0] == "seq" else None
+    if h in ("cmp", "not", "and", "or"):
+        v = _truth(t, env, elem)
+        return None if v is None else ("val", v)
+    return None
+
+
+def _truth(t, env, elem=None):
+    """Three-valued truth of a condition term in the emptiness domain."""
+    h = t[0]
+    if h == "not":
+        v = _truth(t[1], env, elem)
+        return None if v is None else not v
+    if h in ("and", "or"):
+        vs = [_truth(x, env, elem) for x in t[1]]
+        if h == "and":
+            return False if False in vs else None if None in vs else True
+        return True if True in vs else None if None in vs else False
+    if h == "cmp":
+        op, l, r = t[1], _abs(t[2], env, elem), _abs(t[3], env, elem)
+        if l is None or r is None:
+            return None
+        if op in ("in", "not in"):
+            # lemma: a non-empty value does not occur in an empty one; the empty value occurs in every value
+            res = False if (l, r) == ("N", "E") else True if l == "E" and r in ("E", "N") else None
+            return None if res is None else res == (op == "in")
+        if op in ("is", "is not"):
+            # a bytes value or a sequence is not None
+            res = False if (l in ("E", "N") or l[0] == "seq") and r == ("val", None) else None
+            return None if res is None else res == (op == "is")
+        if op in ("==", "!="):
+            if l in ("E", "N") and r in ("E", "N"):
+                res = True if l == r == "E" else False if l != r else None
+            elif l[0] == "val" and r[0] == "val":
+                res = l[1] == r[1]
+            else:
+                res = None
+            return None if res is None else res == (op == "==")
+        if l[0] == "val" and r[0] == "val" and type(l[1]) is int and type(r[1]) is int:
+            return {"<": l[1] < r[1], "<=": l[1] <= r[1], ">": l[1] > r[1], ">=": l[1] >= r[1]}.get(op)
+        return None
+    v = _abs(t, env, elem)
+    if v is None:
+        return None
+    return False if v == "E" else True if v == "N" else len(v[1]) > 0 if v[0] == "seq" else bool(v[1])
+
+
+def _path_shape(a):
+    """How a request-path term obtains the path from the request target: (kind, target term) with kind one of
+    "urlsplit" (`.path` of urlsplit), "urlparse" (`.path` of urlparse alone), "rejoin" (urlparse's path with its
+    `;params` put back), "cut" (the target up to its first `?`); None if it is none of them."""
+    if a[0] == "attr" and a[1] in ("path", "path;params") and a[2][0] == "call" and a[2][1] in ("urlparse", "urlsplit") and a[2][2]:
+        if a[1] == "path":
+            return a[2][1], a[2][2][0]
+        return ("rejoin", a[2][2][0]) if a[2][1] == "urlparse" else None
+    if a[0] == "item" and a[2] == 2 and a[1][0] == "call" and a[1][1] in ("urlparse", "urlsplit") and a[1][2]:
+        return a[1][1], a[1][2][0]      # element 2 of both result tuples is `.path`
+    if a[0] == "part" and a[1] == "partition" and a[4] == 0 and a[3] in (("const", b"?"), ("const", "?")):
+        return "cut", a[2]
+    return None
+
+
+def _query_shape(q):
+    """The query of the request target: `.query` of a urlparse/urlsplit result, or what follows the first `?` -> target."""
+    if q[0] == "attr" and q[1] == "query" and q[2][0] == "call" and q[2][1] in ("urlparse", "urlsplit") and q[2][2]:
+        return q[2][2][0]
+    if q[0] == "item" and q[1][0] == "call" and q[1][2] and (q[1][1], q[2]) in (("urlparse", 4), ("urlsplit", 3)):
+        return q[1][2][0]               # `.query` is element 4 of a ParseResult and element 3 of a SplitResult
+    if q[0] == "part" and q[1] == "partition" and q[4] == 2 and q[3] in (("const", b"?"), ("const", "?")):
+        return q[2]
+    return None
+
+
 def run(ctx):
     rep = ctx.rep
     rep.explanation = (
@@ -836,10 +1180,15 @@ def run(ctx):
         "the first CRLFCRLF of the unmodified argument as body, the start line is the first CRLF-component of the head, its "
         "whitespace tokens are only unpacked under a dominating length-3 fact and are bound to the like-named fields, "
         "response/request construction is selected by the case-insensitive HTTP/ prefix, the header map is built from the "
-        "': '-partition of each remaining head line, and the exception-escape set of the function is a subset of ValueError."
+        "': '-partition of each remaining head line (skipping at most lines that are no `key: value` line), in the case of an empty "
+        "header block (emptiness domain) no entry is stored, the request path is the complete path component of the target "
+        "(urlsplit, not urlparse which cuts `;parameters` off), and the exception-escape set of the function is a subset of ValueError."
     )
-    rep.not_decided = ["percent-decoding details (parse_qsl semantics)", "duplicate headers", "the spurious {b'': b''} header for a message without header lines (value-level)"]
-    rep.trusted_base = ["CPython ast", "bytes.partition/split/find/slicing semantics", "urllib.parse"]
+    rep.not_decided = ["percent-decoding details (parse_qsl semantics)", "duplicate headers",
+                       "header lines that are not of the `key: value` form (outside the quantifier; R5 lets a filter drop them)",
+                       "request targets with a fragment `#` or a leading `//` (not legal in a request path, outside the quantifier): how urlsplit/urlparse or a cut at `?` treat them is not judged",
+                       "under the urlparse re-join spelling, a last path segment ending in a bare `;` (empty `.params`): the re-join is accepted as the complete path"]
+    rep.trusted_base = ["CPython ast", "bytes.partition/split/splitlines/find/slicing semantics (incl. b''.split(sep) == [b''])", "urllib.parse (urlsplit keeps `;params` in .path, urlparse moves them to .params; parse_qsl)"]
     f = ctx.repo.func("c2.parse_raw_http")
     cfg = ctx.cfg(f)
     fv = FuncView.of(f.node)
@@ -940,12 +1289,13 @@ def run(ctx):
             return T is not None
 
         def p_uri(a):
-            a = _strip_codec(a)[0]
-            if a[0] == "attr" and a[1] == "path" and a[2][0] == "call" and a[2][1] == "urlparse" and a[2][2]:
-                T = tok_of(_strip_codec(a[2][2][0])[0], 1)
+            sh = _path_shape(_strip_codec(a)[0])
+            if sh is not None:
+                target = _strip_codec(sh[1])[0]
+                T = tok_of(target, 1)
                 if T is not None:
                     seen.append(T)
-                    parses.append(a[2])
+                    parses.append(target)
                     return True
             return False
 
@@ -956,19 +1306,42 @@ def run(ctx):
             it, k, v = a[1], _strip_codec(a[2])[0], _strip_codec(a[3])[0]
             if not (it[0] == "call" and it[1] == "parse_qsl" and it[2]):
                 return False
-            q = _strip_codec(it[2][0])[0]
-            if not (q[0] == "attr" and q[1] == "query"):
+            target = _query_shape(_strip_codec(it[2][0])[0])
+            if target is None:
                 return False
-            parses.append(q[2])
+            parses.append(_strip_codec(target)[0])
             return k == _mk_item(ELEM, 0) and v == _mk_item(ELEM, 1)
 
+        # pairs of parse_qsl dropped by a condition: whether the condition can fail for a pair is parse_qsl semantics -> not modelled
+        p_t = _mk_phi([_opaque("parse_qsl pairs filtered by a condition") if a[0] == "map" and a[1][0] == "filter" and _unfilter(a[1])[0][:2] == ("call", "parse_qsl") else a
+                       for a in _alts(p_t)])
         vm, vu, vp = _judge(m_t, p_method), _judge(u_t, p_uri), _judge(p_t, p_params)
         same = len({repr(x) for x in seen}) <= 1 and len({repr(x) for x in parses}) <= 1
         v = _worst(vm, vu, vp) if same else "bad"
         _emit(ctx, "R3", "AGREE", f, "HttpRequest(method, uri, params)", v,
-              "method = first token; uri = urlparse(<second token, re-coded only>).path; params = mapping of the parse_qsl pairs of that same parse's query",
-              f"method = {_show(m_t)} (first token: {vm == 'ok'}); uri = {_show(u_t)} (urlparse(<second token>).path: {vu == 'ok'}); params = {_show(p_t)} "
-              f"(parse_qsl pairs of <same parse>.query: {vp == 'ok'}); one token sequence and one parse: {same}", c)
+              "method = first token; uri = the path component of the request target (= second token, re-coded only) as split off by urlsplit/urlparse or "
+              "at the first `?`; params = mapping of the parse_qsl pairs of the query component of that same target",
+              f"method = {_show(m_t)} (first token: {vm == 'ok'}); uri = {_show(u_t)} (path component of <second token>: {vu == 'ok'}); params = {_show(p_t)} "
+              f"(parse_qsl pairs of the query component: {vp == 'ok'}); one token sequence and one target: {same}", c)
+        # ---- R10: the path is the *complete* path component of the target
+        def path_kind(a):
+            sh = _path_shape(_strip_codec(a)[0])
+            return None if sh is None else sh[0]
+
+        kinds = [path_kind(a) for a in _alts(u_t)]
+        if any(k == "urlparse" for k in kinds):
+            ctx.ob("R10", "API", f, "request path", False,
+                   f"the request path is {_show(u_t)}: `.path` of urllib.parse.urlparse() alone. urlparse() cuts `;parameters` off the last path segment into "
+                   "`.params` (documented; `;` is a legal path character, RFC 3986 pchar), so a target such as /a;b?x=1 yields the path /a instead of /a;b. "
+                   "urlsplit() keeps them in `.path`", c)
+        elif all(k is not None for k in kinds):
+            ctx.ob("R10", "API", f, "request path", True,
+                   "the request path is the complete path component of the target: " + ", ".join(sorted({
+                       {"urlsplit": "`.path` of urlsplit() (which does not split `;parameters` off)", "rejoin": "`.path` of urlparse() with its `.params` put back behind a `;`",
+                        "cut": "the target up to its first `?`"}[k] for k in kinds})), c)
+        else:
+            ctx.undecided("R10", "API", f, "request path", f"the request path is {_show(u_t)}: not obtained from the target in one of the ways the rule can classify "
+                          "(`.path` of urlsplit/urlparse, urlparse path re-joined with `.params`, split at the first `?`)", c)
 
     # ---- R1 first_line: every token sequence is the whitespace split of the first CRLF-component of the head
     lines = [FL]
@@ -1097,8 +1470,22 @@ def run(ctx):
     ctx.ob("R4", "EXIT", f, "falls off end", not cfg.falls_off_end(), "never returns None")
 
     # ---- R3 headers / R5: the header map
-    def p_headers_lines(a):
-        return a[0] == "map" and a[1] == ("meth", "split", REST, (("const", CRLF),), ())
+    LINES = ("meth", "split", REST, (("const", CRLF),), ())
+
+    def v_lines(t):
+        """ok: every alternative is a map built over rest-of-head.split(CRLF), possibly skipping lines / guarded by conditions
+        that no `key: value` line (resp. no block containing one) fails; und: built over those lines but with a skip
+        condition the lemmas of `_keeps_header_lines` do not cover, or not modelled; bad: built over something else."""
+        res = []
+        for a in _alts(t):
+            base, facts = _unfilter(a[1]) if a[0] == "map" else (None, [])
+            if base != LINES:
+                res.append("und" if _has_opaque(a) else "bad")
+            elif all(_keeps_header_lines(at, pol, (ELEM, REST)) for at, pol in facts):
+                res.append("ok")
+            else:
+                res.append("und")
+        return _worst(*res)
 
     hmaps = []
     for kind, cs in ctors.items():
@@ -1109,13 +1496,13 @@ def run(ctx):
                 continue
             if t not in hmaps:
                 hmaps.append(t)
-            v = _judge(t, p_headers_lines)
+            v = v_lines(t)
             _emit(ctx, "R3", "AGREE", f, f"{kind}(headers=headers)", v, "headers bound to the map built over the CRLF-separated lines of the head after the start line",
-                  f"headers of {kind} is {_show(t)}: not a map built over rest-of-head.split(b'\\r\\n')", c)
+                  f"headers of {kind} is {_show(t)}: not a map built over rest-of-head.split(b'\\r\\n') that skips at most lines which are no `key: value` line", c)
     key_t = ("part", "partition", ELEM, ("const", b": "), 0)
     val_t = ("part", "partition", ELEM, ("const", b": "), 2)
     for t in hmaps:
-        vi = _judge(t, p_headers_lines)
+        vi = v_lines(t)
         vk = _judge(t, lambda a: a[0] == "map" and a[2] == key_t and a[3] == val_t)
         _emit(ctx, "R5", "AGREE", f, "header lines", _worst(vi, vk),
               "header lines = rest-of-head.split(b'\\r\\n'); each partitioned at the first b': '; stored key -> value in line order",
@@ -1125,6 +1512,36 @@ def run(ctx):
             ctx.ob("R5", "AGREE", f, "headers = {}", ok, "header map starts empty (insertion order preserved)" if ok else f"header map does not start empty: {_show(t)}")
     if not hmaps:
         ctx.undecided("R5", "AGREE", f, "header lines", "no header map reaches a construction")
+
+    # ---- R9: a message without header lines has the empty header map.  Case "the header block (rest of the head after the
+    # start line) is empty", evaluated in the emptiness/length domain of `_abs`: the sequence the map is built over must
+    # have no element left when it reaches the store
+    CASE = {REST: "E", DATA: "N", HEAD: "N", FL: "N"}   # no header line; the start line (three tokens) is never empty
+    for t in hmaps:
+        res, why = [], []
+        for a in _alts(t):
+            if a[0] == "dict":
+                n = len(a[1])
+            elif a[0] == "map":
+                v = _abs(a[1], CASE)
+                n = None if not (v and v[0] == "seq") else len(v[1]) + len(a[4])
+                if n:
+                    base, facts = _unfilter(a[1])
+                    vb = _abs(base, CASE)
+                    why.append(f"{_show(base)} has {len(vb[1]) if vb and vb[0] == 'seq' else 'some'} piece(s) for an empty block"
+                               + (f" and the condition(s) {[('' if p else 'not ') + _show(x) for x, p in facts]} do not skip an empty line" if facts else " and nothing skips an empty line")
+                               + (f"; the map starts with {len(a[4])} entries" if a[4] else ""))
+            else:
+                n = None
+            res.append("und" if n is None else "bad" if n else "ok")
+        v = _worst(*res)
+        if v == "und":
+            ctx.undecided("R9", "ABS", f, "empty header block", f"the header map is {_show(t)}: what it is built over when the header block is empty cannot be determined in the emptiness domain")
+        else:
+            ctx.ob("R9", "ABS", f, "empty header block", v == "ok",
+                   "when the header block is empty no entry is stored: the lines iterated over are none, or the one empty piece of split(<separator>) is skipped before the store" if v == "ok" else
+                   f"a message without header lines (empty header block) gets a header entry instead of the empty map: the map is {_show(t)}; " + "; ".join(why) +
+                   " (lemma: b''.split(sep) == [b''], one empty piece, never an empty list) - the entry {b'': b''} is stored")
 
     # ---- R6
     effects.check_escape(ctx, "R6", ["c2.parse_raw_http"], {"ValueError"})
